@@ -493,7 +493,7 @@ func checkC13(c *Check, p *Program) {
 					return false
 				}
 				// the cell receives the transmission's result (or an error made from it where it failed)
-				return cellTracksFailure(p, cell, a.sendSite.Call.Value())
+				return cellTracksFailure(p, cell, a.sendSite.Call.Value(), nil)
 			}
 			if unlock == nil {
 				c.Fail("C13.P2", gn+" unlocks", p.Pos(gf.Pos()), "no unlock in the hand-off goroutine")
@@ -989,7 +989,7 @@ func checkC14(c *Check, p *Program) {
 			}
 		}
 		if u, ok := v.(*ssa.UnOp); ok && u.Op == token.MUL {
-			if cell := cellOf(u.X); cell != nil && cellTracksFailure(p, cell, sendRes) {
+			if cell := cellOf(u.X); cell != nil && cellTracksFailure(p, cell, sendRes, u) {
 				return true
 			}
 		}
@@ -1792,7 +1792,7 @@ func affineLoopVisits(lp *loopInfo, mk *ssa.MakeSlice, isStore func(ssa.Instruct
 // succeeded: it is stored the transmission's result itself, or - where the
 // result is known to be non-nil - an error made for it; nothing else but the
 // nil initialisation is ever stored.
-func cellTracksFailure(p *Program, cell *ssa.Alloc, sendRes *ssa.Call) bool {
+func cellTracksFailure(p *Program, cell *ssa.Alloc, sendRes *ssa.Call, at ssa.Instruction) bool {
 	if sendRes == nil {
 		return false
 	}
@@ -1810,9 +1810,38 @@ func cellTracksFailure(p *Program, cell *ssa.Alloc, sendRes *ssa.Call) bool {
 			if !isNilConst(st.Val) {
 				return false
 			}
+		case isNilConst(st.Val):
+			// `return nil` where the transmission is known to have succeeded
+			okNil := anyFact(factsAt(st.Block()), func(f Cmp) bool {
+				if f.Op != token.EQL {
+					return false
+				}
+				x, y := f.X, f.Y
+				if isNilConst(x) {
+					x, y = y, x
+				}
+				if !isNilConst(y) {
+					return false
+				}
+				if x == ssa.Value(sendRes) {
+					return true
+				}
+				u, ok := x.(*ssa.UnOp)
+				return ok && u.Op == token.MUL && cellOf(u.X) == cell
+			})
+			if !okNil {
+				return false
+			}
 		case st.Val == ssa.Value(sendRes):
+			// read in the function itself: the assignment comes first on every path
+			if at != nil && !instrDominates(st, at) {
+				return false
+			}
 			tracked = true
 		case p.isNonNilError(st.Val):
+			if at != nil && !instrReaches(st, at) {
+				return false
+			}
 			failed := anyFact(factsAt(st.Block()), func(f Cmp) bool {
 				return f.Op == token.NEQ && ((f.X == ssa.Value(sendRes) && isNilConst(f.Y)) || (f.Y == ssa.Value(sendRes) && isNilConst(f.X)))
 			})
